@@ -22,8 +22,8 @@ func (afs *osFS) SetTimesLNano(path fs.RelPath, mtime time.Time, atime time.Time
 	}
 
 	var utimes [2]syscall.Timespec
-	utimes[0] = syscall.NsecToTimespec(atime.UnixNano())
-	utimes[1] = syscall.NsecToTimespec(mtime.UnixNano())
+	utimes[0] = timespecOf(atime)
+	utimes[1] = timespecOf(mtime)
 
 	// These are not currently available in syscall
 	AT_FDCWD := -100
@@ -52,10 +52,16 @@ func (afs *osFS) SetTimesNano(path fs.RelPath, mtime time.Time, atime time.Time)
 	// Note that this is disambiguated from plain `os.Chtimes` only in that it refuses to fall back to lower precision on old kernels.
 	// Like LUtimesNano, it depends on kernel 2.6.22 or newer.
 	var utimes [2]syscall.Timespec
-	utimes[0] = syscall.NsecToTimespec(atime.UnixNano())
-	utimes[1] = syscall.NsecToTimespec(mtime.UnixNano())
+	utimes[0] = timespecOf(atime)
+	utimes[1] = timespecOf(mtime)
 	if err := syscall.UtimesNano(rpath, utimes[0:]); err != nil {
 		return fs.NormalizeIOError(err)
 	}
 	return nil
+}
+
+// A timespec for any time.Time: seconds and nanoseconds separately
+//  (time.UnixNano overflows outside the years 1678..2262).
+func timespecOf(t time.Time) syscall.Timespec {
+	return syscall.Timespec{Sec: t.Unix(), Nsec: int64(t.Nanosecond())}
 }
